@@ -260,6 +260,9 @@ class MieLensCalculator(object):
         window_start = np.floor(krho.min() / window_size)
         window_end = np.ceil(krho.max() / window_size + 1e-4) + 1
         window_breakpoints = window_size * np.arange(window_start, window_end)
+        # (window_size * floor(min / window_size) can exceed min by a rounding
+        # error, e.g. 0.1 * 34 > 3.4: the first window starts at the data)
+        window_breakpoints[0] = min(window_breakpoints[0], krho.min())
 
         interpolator = PiecewiseChebyshevApproximant(
             lambda x: self._direct_eval_mielens_i_n(x, n=n),
